@@ -128,7 +128,8 @@ class HedString(HedGroup):
         """
         for def_expand_tag, def_expand_group in self.find_tags({DefTagNames.DEF_EXPAND_KEY}, recursive=True):
             expanded_parent = def_expand_group._parent
-            if expanded_parent:
+            # A group holding two Def-expand tags is found twice: it is shrunk (to its first tag) only once.
+            if expanded_parent and any(child is def_expand_group for child in expanded_parent.children):
                 def_expand_tag.short_base_tag = DefTagNames.DEF_KEY
                 def_expand_tag._expanded = False
                 def_expand_tag._parent = expanded_parent
